@@ -23,7 +23,7 @@ CHECKS = {
    note="as C06; the 4 MiB approach runs in the thorough tier only"),
  "C09": dict(engine="tlc-trace", design_ref="DESIGN.md §4 C09",
    technique="TLA+ spec with explicit runtime dispatch/run steps (Deadline.tla) + TLC MC + tour replay with a fake runtime timer in virtual time; traces validated by TLC",
-   text="TLC checks NeverEarly / FiresWhenDue on Deadline.tla for all Set/advance/dispatch/run orders with up to 3 outstanding callbacks; every transition is replayed on the real Deadline inside synctest bubbles with a harness timer in the unexported timer field (dispatch and callback execution are explicit steps, so stale callbacks racing Set are enumerated), plus public-API histories with real timers; Done/Err/Deadline/channel identity after every step are validated by TLC.",
+   text="TLC checks NeverEarly / FiresWhenDue on Deadline.tla for all Set/advance/dispatch/run orders with up to 3 outstanding callbacks; every transition is replayed on the real Deadline inside synctest bubbles with a harness timer in the unexported timer field (dispatch and callback execution are explicit steps, so stale callbacks racing Set are enumerated), plus public-API histories with real timers; Done/Err/Deadline/channel identity after every step are validated by TLC. As a note, Apalache discharges an inductive invariant implying the three C09 invariants of Deadline.tla with no bound on clock, Set times, callbacks in flight or history length (DeadlineInd.tla).",
    note="virtual time from testing/synctest (go1.26.8, asynctimerchan=0); fake-timer binding names unexported identifiers, falls back to public API if they disappear"),
  "C15": dict(engine="tlc-trace", design_ref="DESIGN.md §4 C15",
    technique="TLA+ conformance automaton (TBF.tla: virtual bucket never negative <=> burst+rate bound on every sub-interval) + TLC MC of the transcribed algorithm + virtual-time arrival plans on the real filter validated by TLC",
